@@ -6,9 +6,9 @@
 (* (`timeout`, exit statuses, SIGPIPE, grep -F) for the R4 cross-check.      *)
 EXTENDS CommandExec, Json
 
-Initial == pc = "spawn" /\ nsp = 0 /\ clock = 0
+Initial == pc = "spawn" /\ nsp = 0 /\ clock = 0 /\ mech = "intended"      \* the specified mechanism admits every case
 
-Emit ==
+EmitCase ==
     Initial =>
         PrintT(<<"CASE", ToJson([st |-> c.st, api |-> c.api, keep |-> c.keep, tmo |-> c.tmo, sig |-> c.sig,
                                  split |-> c.split, form |-> c.form, meta |-> c.meta, env |-> c.env,
